@@ -555,6 +555,22 @@ func (s SchemesData) Append(d *SchemeData) SchemesData {
 	return append(s, d)
 }
 
+// DedupeByType returns the schemes with at most one scheme of any given type
+// (Basic, APIKey, JWT or OAuth2). The generated Auther interface and endpoint
+// constructors use one authorization function per type.
+func (s SchemesData) DedupeByType() SchemesData {
+	var res SchemesData
+	seen := make(map[string]struct{}, len(s))
+	for _, se := range s {
+		if _, ok := seen[se.Type]; ok {
+			continue
+		}
+		seen[se.Type] = struct{}{}
+		res = append(res, se)
+	}
+	return res
+}
+
 // analyze creates the data necessary to render the code of the given service.
 // It records the user types needed by the service definition in userTypes.
 func (d ServicesData) analyze(service *expr.ServiceExpr) *Data {
